@@ -48,6 +48,8 @@ def run(chk):
     chk.prove(["Props/Properties_C11.v"])
     n = 500 if chk.tier == "quick" else 20000
     cases = [sc.gen_lifecycle(chk.rng, i) for i in range(n)] + [sc.gen_convergence(chk.rng, i, "conv") for i in range(n // 3)]
+    late = chk.sub_rng("latepeer")
+    cases += [sc.gen_latepeer(late, i) for i in range(n // 4)]
     sc.run_sim(chk, cases, oracle, "sim-C11")
     return chk.finish(**FINISH)
 
